@@ -333,6 +333,21 @@ fn family_special() -> Vec<Case> {
     out.push(Case { family: "name-spaces", defs: vec![d("again", &["l"], "dec cx jnz l")], data: String::new(), code: "start:\nmov cx, 3\nagain:\nagain(again)\n".into() });
     out.push(Case { family: "name-spaces", defs: vec![d("go", &["l"], "jmp l"), d("count", &["l"], "dec cx go(count) inc l")], data: String::new(), code: "start:\ncount(ax)\ncount:\nhlt\n".into() });
     out.push(Case { family: "name-spaces", defs: vec![d("f", &["p"], "call p")], data: String::new(), code: "def f {\ninc ax\n}\nstart:\nf(f)\n".into() });
+    // a macro that leaves through the same label more than once, the label defined before / after the use /
+    // inside a procedure; the same macro used twice with the same label
+    for (k, code) in [
+        "start:\nmov ax, 5\noor(ax, bad)\nmov bx, 1\njmp done\nbad:\nmov bx, 2\ndone:\n",
+        "start:\njmp over\nbad:\nhlt\nover:\noor(ax, bad)\n",
+        "start:\noor(ax, bad)\noor(bx, bad)\noor(cx, done)\nbad:\ndone:\n",
+        "def f {\noor(ax, out_)\ninc si\nout_:\n}\nstart:\ncall f\n",
+    ]
+    .iter()
+    .enumerate()
+    {
+        let _ = k;
+        out.push(Case { family: "repeated-target", defs: vec![d("oor", &["x", "l"], "cmp x,10 ja l cmp x,0 je l loop l")], data: String::new(), code: code.to_string() });
+        out.push(Case { family: "repeated-target", defs: vec![d("go", &["l"], "jmp l"), d("oor", &["x", "l"], "cmp x,10 ja l go(l) go(l)")], data: String::new(), code: code.to_string() });
+    }
     // macro names that contain each other (suffix, prefix, infix): a macro using, directly or through a name
     // argument, a macro whose name merely CONTAINS its own name is not recursive; using itself still is
     {
